@@ -2,9 +2,12 @@
 (* Trace validation of recorded runs of the real estimate_importances_minibatches /      *)
 (* ranking task against Streaming.tla's actions, with the code's real constants.         *)
 (* Events (ndjson), recorded at the loop's linearisation points:                         *)
-(*  {"e":"parse","nf":fields,"pos":p}   a selected line was parsed; p = the row's own    *)
-(*                                      1-based position carried in its first field      *)
-(*                                      (-1 if unreadable, e.g. an empty line)           *)
+(*  {"e":"parse","nf":fields,"pos":p,"wf":w}  a selected line was parsed; p = the row's   *)
+(*                                      own 1-based position carried in its first field  *)
+(*                                      (-1 if unreadable, e.g. an empty line); w = what *)
+(*                                      the generated file knows about the line: 1 well- *)
+(*                                      formed (as many CSV fields as the header), 0     *)
+(*                                      malformed, -1 unknown                            *)
 (*  {"e":"batch","k":k,"ids":[p..],"trip":[[A,B,s]..]}  compute_batch_ranking returned   *)
 (*  {"e":"checkpoint","k":k,"table":[[A,B,s]..]}        checkpoint file after the call   *)
 (*  {"e":"invalid","n":n}               the invalid-line report                          *)
@@ -47,6 +50,7 @@ Parse == /\ Ev("parse")
          /\ lineno + SS <= NLines                                     \* the line exists
          /\ Trace[l].pos \in {lineno + SS, -1}                        \* exactly the next multiple of SS, none skipped
          /\ lineno' = lineno + SS
+         /\ (Trace[l].wf = 1 => Trace[l].nf = NCols) /\ (Trace[l].wf = 0 => Trace[l].nf # NCols)   \* the parser's verdict is the file's
          /\ IF Trace[l].nf = NCols
             THEN buf' = Append(buf, lineno + SS) /\ inval' = inval
             ELSE buf' = buf /\ inval' = inval + 1                     \* rejected as a whole
